@@ -1,4 +1,5 @@
 """Writes MANIFEST.json from the table below (one place to keep it consistent)."""
+import glob
 import json
 import os
 
@@ -279,7 +280,8 @@ def main():
           for pid in ALL if pid not in CLAIMED]
     m = {
         'version': 1,
-        'setup_cmd': '/venv/bin/python harness/extract.py && cd lean && lake build PelModel PelGen peldrv && lake build ' + ' '.join('PelProps.' + p for p in sorted(CLAIMED)),
+        'setup_cmd': '/venv/bin/python harness/extract.py && cd lean && lake build PelModel PelGen peldrv && lake build ' + ' '.join('PelProps.' + p for p in sorted(CLAIMED)) +
+                     ' ' + ' '.join('PelProps.' + os.path.basename(f)[:-5] for f in sorted(glob.glob(os.path.join(VERIF, 'lean', 'PelProps', 'Tie*.lean')))),
         'hooks': {
             'guard': 'OPENPOWER_PEL_PARSERS_VERIF',
             'enable': 'no instrumentation is compiled into the repository: all observation is external (in-process monkey patching inside the harness, subprocess runs, tree snapshots); the guard variable is unused',
